@@ -113,7 +113,7 @@ def gen_string(rng, breaks):
 def gen_value(rng, kind, breaks):
     if kind == "str" or (kind == "mixed" and rng.random() < 0.5):
         return {"t": "str", "v": gen_string(rng, breaks)}
-    t = rng.choice(["int", "float", "float", "np_float32", "np_float64", "np_int64"])
+    t = rng.choice(["int", "float", "float", "np_float32", "np_float64", "np_int64", "int", "float", "np_arr0", "np_arr1", "np_arr2"])
     if t in ("int", "np_int64"):
         return {"t": t, "v": rng.randint(-50, 5000)}
     return {"t": t, "v": rng.randint(-400, 400) / 16.0}
@@ -151,7 +151,7 @@ def gen_human_case(rng, i):
             ops.append(["level", rng.choice([10, 20, 30, 40, 50, 20])])
         elif u < 0.55:
             m = rng.choice(["debug", "info", "warn", "error", "log"])
-            ops.append(["log", m, rng.choice([10, 20, 30, 40]) if m == "log" else LEVELS[m], f"msg{tok}x"])
+            ops.append(["log", m, rng.choice([10, 20, 30, 40]) if m == "log" else LEVELS[m], f"msg{tok}x"] + ([f"arg{tok}y"] if rng.random() < 0.3 else []))
             tok += 1
         elif u < 0.85:
             ops.append(["record", rng.choice(pool if rng.random() < 0.8 else pool[:2]), rng.randint(0, 99)])
@@ -207,6 +207,12 @@ def py_value(spec):
     import numpy as np
 
     t, v = spec["t"], spec["v"]
+    if t == "np_arr0":
+        return np.array(float(v))
+    if t == "np_arr1":
+        return np.array([float(v)])
+    if t == "np_arr2":
+        return np.array([float(v), float(v) + 1.0])
     return {"str": str, "int": int, "float": float, "np_float32": np.float32, "np_float64": np.float64, "np_int64": np.int64}[t](v)
 
 
@@ -256,7 +262,8 @@ def run_impl(case):
                     pend = []
                     for k, v in lg.name_to_value.items():
                         isnum = not isinstance(v, str)
-                        pend.append({"k": k, "num": isnum, "v": (float(v) if isnum else v), "text": str(v), "excl": list(lg.name_to_excluded[k])})
+                        first = (lambda x: float(__import__("numpy").ravel(x)[0]))   # arrays: the model carries the first element, the text is str(array)
+                        pend.append({"k": k, "num": isnum, "v": (first(v) if isnum else v), "text": str(v), "excl": list(lg.name_to_excluded[k])})
                     lg.dump()
                     extra = list(csv_fmt.keys[known:]) if csv_fmt else []
                     known = len(csv_fmt.keys) if csv_fmt else 0
@@ -277,7 +284,7 @@ def run_impl(case):
         if "json" in case["formats"]:
             df = L.read_json(os.path.join(d, "progress.json"))
             cols = [str(c) for c in df.columns]
-            out["json_rows"] = [{c: (x if isinstance(x, str) else float(x)) for c, x in zip(cols, row) if not (isinstance(x, float) and math.isnan(x)) and x is not None}
+            out["json_rows"] = [{c: (x if isinstance(x, (str, list)) else float(x)) for c, x in zip(cols, row) if not (isinstance(x, float) and math.isnan(x)) and x is not None}
                                 for row in df.values.tolist()]
             if len(out["json_rows"]) == 0 and len(df) > 0:
                 out["json_rows"] = [{} for _ in range(len(df))]
@@ -309,9 +316,9 @@ def run_human(case):
                     lg.set_level(op[1])
                 elif op[0] == "log":
                     if op[1] == "log":
-                        lg.log(op[3], level=op[2])
+                        lg.log(*op[3:], level=op[2])
                     else:
-                        getattr(lg, op[1])(op[3])
+                        getattr(lg, op[1])(*op[3:])
                 elif op[0] == "record":
                     lg.record(op[1], op[2])
                 else:
@@ -328,6 +335,53 @@ def run_human(case):
         shutil.rmtree(d, ignore_errors=True)
 
 
+def run_configure(case):
+    """documented ways to configure: environment variables, defaults, refused formats"""
+    from stable_baselines3.common import logger as L
+
+    d = tempfile.mkdtemp(prefix="c20c_")
+    old = {k: os.environ.get(k) for k in ("SB3_LOGDIR", "SB3_LOG_FORMAT")}
+    res = {}
+    try:
+        os.environ["SB3_LOGDIR"], os.environ["SB3_LOG_FORMAT"] = d, "csv,log"
+        lg = L.configure()
+        res["folder and formats from SB3_LOGDIR / SB3_LOG_FORMAT"] = (lg.get_dir() == d and [type(f).__name__ for f in lg.output_formats] == ["CSVOutputFormat", "HumanOutputFormat"])
+        lg.record("a", 1)
+        lg.dump()
+        lg.close()
+        res["files written there"] = os.path.exists(os.path.join(d, "progress.csv")) and os.path.exists(os.path.join(d, "log.txt"))
+        os.environ.pop("SB3_LOGDIR")
+        os.environ.pop("SB3_LOG_FORMAT")
+        old_out, sys.stdout = sys.stdout, io.StringIO()
+        try:
+            lg2 = L.configure()
+            lg2.close()
+        finally:
+            sys.stdout = old_out
+        res["default folder in the temp dir, default formats stdout,log,csv"] = (os.path.basename(lg2.get_dir()).startswith("SB3-") and
+                                                                                [type(f).__name__ for f in lg2.output_formats] == ["HumanOutputFormat", "HumanOutputFormat", "CSVOutputFormat"])
+        shutil.rmtree(lg2.get_dir(), ignore_errors=True)
+
+        def raises(f):
+            try:
+                f()
+                return False
+            except ValueError:
+                return True
+
+        res["unknown format refused"] = raises(lambda: L.configure(d, ["xml"]))
+        res["HumanOutputFormat refuses something that is neither a path nor a file"] = raises(lambda: L.HumanOutputFormat(123))
+        res["empty format strings are skipped"] = len(L.configure(d, ["", "csv"]).output_formats) == 1
+    finally:
+        for k, v in old.items():
+            if v is None:
+                os.environ.pop(k, None)
+            else:
+                os.environ[k] = v
+        shutil.rmtree(d, ignore_errors=True)
+    return {"configure": res}
+
+
 def human_plan(case):
     """what the Logger model is asked: (cfg, level) of every log call; (cfg, pending keys) of every dump (pending survives a disabled dump)"""
     cfg, pending, logs, dumps = 20, [], [], []
@@ -335,7 +389,7 @@ def human_plan(case):
         if op[0] == "level":
             cfg = op[1]
         elif op[0] == "log":
-            logs.append((cfg, op[2], op[3]))
+            logs.append((cfg, op[2], " ".join(op[3:])))   # several arguments are written separated by one space
         elif op[0] == "record":
             if op[1] not in pending:
                 pending.append(op[1])
@@ -409,7 +463,7 @@ def model_exprs(case, impl):
         ex = coq_list([coq_text(x) for x in excl_tuple(op[3])])
         if op[0] == "record":
             v = op[2]
-            val = f"(LStr {coq_text(v['v'])})" if v["t"] == "str" else f"(LNum {coq_Q(F(float(py_value(v))))})"
+            val = f"(LStr {coq_text(v['v'])})" if v["t"] == "str" else f"(LNum {coq_Q(F(float(v['v'])))})"
             ops.append(f"ORecord {coq_text(op[1])} {val} {ex}")
         else:
             val = "None" if op[2] is None else f"(Some {coq_Q(F(op[2]))})"
@@ -436,11 +490,37 @@ def recorded_per_dump(case):
             pending, means = {}, {}
         elif op[0] == "record":
             v = op[2]
-            pending[op[1]] = (v["v"] if v["t"] == "str" else float(py_value(v)), excl_tuple(op[3]))
+            pending[op[1]] = (v["v"] if v["t"] == "str" else _recorded(v), excl_tuple(op[3]))
         elif op[2] is not None:
             means.setdefault(op[1], []).append(F(op[2]))
             pending[op[1]] = (float(sum(means[op[1]]) / len(means[op[1]])), excl_tuple(op[3]))
     return out, pending
+
+
+def _recorded(spec):
+    """a recorded numeric value: a float, or ("arr", values, ndim) for a numpy array"""
+    if spec["t"] == "np_arr0":
+        return ("arr", [float(spec["v"])], 0)
+    if spec["t"] == "np_arr1":
+        return ("arr", [float(spec["v"])], 1)
+    if spec["t"] == "np_arr2":
+        return ("arr", [float(spec["v"]), float(spec["v"]) + 1.0], 1)
+    return float(py_value(spec))
+
+
+def as_fmt(v, fmt):
+    """what a numpy array value is expected to look like in one output: csv / human write str(array), json a float (size 1) or a list;
+    "pending" = the first element (what the Logger model carries)"""
+    if not (isinstance(v, tuple) and v and v[0] == "arr"):
+        return v
+    import numpy as np
+
+    _, vals, nd = v
+    if fmt == "pending" or nd == 0:
+        return vals[0]
+    if fmt == "json":
+        return vals[0] if len(vals) == 1 else list(vals)
+    return str(np.array(vals))
 
 
 def cell_matches(want, got):
@@ -448,6 +528,8 @@ def cell_matches(want, got):
         return got is None
     if got is None:
         return False
+    if isinstance(want, list):
+        return isinstance(got, list) and len(got) == len(want) and all(abs(float(a) - b) <= 1e-9 * max(1.0, abs(b)) for a, b in zip(got, want))
     if isinstance(want, str):
         return isinstance(got, str) and got == want
     try:
@@ -506,7 +588,7 @@ def compare(case, impl, mv):
             probs.append(("oracle-pending-keys", f"dump {r}: pending keys {sorted(got)} recorded {sorted(rec[r])}"))
             continue
         for k, (v, e) in rec[r].items():
-            if not cell_matches(v, got[k]["v"]):
+            if not cell_matches(as_fmt(v, "pending"), got[k]["v"]):
                 sig = "oracle-record-mean-not-mean" if any(op[0] == "record_mean" and op[1] == k for op in case["ops"]) else "oracle-pending-value"
                 probs.append((sig, f"dump {r} key {k}: pending value {got[k]['v']!r}, recorded / mean {v!r}"))
             if got[k]["excl"] != e:
@@ -537,7 +619,7 @@ def compare(case, impl, mv):
                     for r in range(n):
                         for c, k in enumerate(impl["csv_cols"]):
                             want = rec[r].get(k)
-                            want = None if (want is None or "csv" in want[1]) else want[0]
+                            want = None if (want is None or "csv" in want[1]) else as_fmt(want[0], "csv")
                             if not cell_matches(want, rows[r][c]):
                                 bad.append(f"dump {r} key {k}: read back {rows[r][c]!r}, recorded {want!r}")
                                 bad_cells.append((r, k))
@@ -559,7 +641,7 @@ def compare(case, impl, mv):
             probs.append(("oracle-json-row-count", f"{len(rows)} json rows for {n} dumps"))
         else:
             for r in range(min(n, len(rows))):
-                want = {k: v for k, (v, e) in rec[r].items() if "json" not in e}
+                want = {k: as_fmt(v, "json") for k, (v, e) in rec[r].items() if "json" not in e}
                 if set(rows[r]) != set(want) or not all(cell_matches(want[k], rows[r][k]) for k in want):
                     probs.append(("oracle-json-readback", f"dump {r}: read back {rows[r]}, recorded {want}"))
                     break
@@ -568,7 +650,7 @@ def compare(case, impl, mv):
             continue
         tables = list(impl[fmt + "_tables"])
         for r in range(n):
-            want = {k: v for k, (v, e) in rec[r].items() if fmt not in e}
+            want = {k: as_fmt(v, "human") for k, (v, e) in rec[r].items() if fmt not in e}
             # the writer skips the table when it has nothing to show; otherwise the next table is this dump's
             faithful = {k for k, (v, e) in rec[r].items() if "stdout" not in e and "log" not in e}
             table = tables.pop(0) if faithful and tables else {}
@@ -638,7 +720,7 @@ def mean_on_string(case):
 
 
 def nontrivial(case, impl):
-    if "raised" in impl:
+    if "raised" in impl or "configure" in impl:
         return False
     if case["kind"] == "human":
         return any(e["raised"] for e in impl["events"]) or any(op[0] == "level" for op in case["ops"])
@@ -655,12 +737,12 @@ def run_cases(chk, cases):
     impls = []
     for c in cases:
         try:
-            impls.append(run_human(c) if c["kind"] == "human" else run_impl(c))
+            impls.append(run_configure(c) if c["kind"] == "configure" else run_human(c) if c["kind"] == "human" else run_impl(c))
         except Exception as e:  # noqa: BLE001 - the implementation raised on the history: reported, the check goes on
             impls.append({"raised": f"{type(e).__name__}: {e}"})
     exprs = []
     for c, im in zip(cases, impls):
-        exprs += ["true"] if "raised" in im else exprs_human(c, im) if c["kind"] == "human" else model_exprs(c, im)
+        exprs += ["true"] if ("raised" in im or "configure" in im) else exprs_human(c, im) if c["kind"] == "human" else model_exprs(c, im)
     vals = common.coq_eval_many(chk.pid, HEADER, exprs, shard=120, procs=4)
     results = []
     for c, im, v in zip(cases, impls, vals):
@@ -668,6 +750,8 @@ def run_cases(chk, cases):
             # record_mean on a key that holds a string (mean_defined = false in the model) is a TypeError of the caller, not a violation
             results.append([] if (mean_on_string(c) and im["raised"].startswith("TypeError")) else
                            [("oracle-implementation-raises", "the implementation raises on a legal history: " + im["raised"])])
+        elif "configure" in im:
+            results.append([("oracle-configure", k) for k, ok in im["configure"].items() if not ok])
         else:
             results.append(compare_human(c, im, [v]) if c["kind"] == "human" else compare(c, im, [v]))
     return impls, results
@@ -692,7 +776,7 @@ def main():
     hist = {"plain": 0, "breaks": 0, "human": 0, "corpus": n_corpus, "formats": {}, "dumps": {}, "with_record_mean": 0, "with_exclusions": 0, "f5_class": 0, "f6_class": 0}
     reported = set()
     for idx, (c, im, probs) in enumerate(zip(cases, impls, results)):
-        if "raised" in im and not probs:
+        if ("raised" in im or "configure" in im) and not probs:
             continue
         if idx >= n_corpus:
             hist[c["kind"]] += 1
